@@ -150,10 +150,12 @@ reg(
     [
         only_cfgs(_lazy("tables", "rule_block_popcount_lanes"), ["cli"]),
         _lazy("tables", "rule_popcount_portable_units"),
+        only_cfgs(_lazy("structrules", "rule_tailmask", scope=r"^bits::", floor=1), ["cli"]),
+        only_cfgs(_lazy("structrules", "rule_sampleidx", floor=9), ["cli"]),
         T1_ALL,
     ],
     quick=["cli", "simd"],
-    technique="finite-domain evaluation of kernel MIR + target-feature dominance dataflow",
+    technique="finite-domain evaluation of kernel MIR + def-use provenance rules + target-feature dominance dataflow",
 )
 
 
@@ -184,6 +186,24 @@ reg(
     quick=["cli"],
     technique="finite-domain evaluation of kernel MIR (AVX2 / SSE2 / dispatcher / scalar siblings) vs kernel definitions + target-feature dominance",
     design_ref="§3 CLASS/KSHAPE (realised as YAMLTAB), §4 C16",
+)
+
+
+reg(
+    "C04",
+    "other",
+    "Structural clauses of balanced-parentheses navigation: the four BP byte tables equal their excess-scan definition on every entry (TABLE); "
+    "every sampled-select reader derives its sample index as k / rate with the builder's rate, or the rate is established to be a power of two (SAMPLEIDX); "
+    "the partial word is selected from `len`, not from the container length (TAILMASK; three known-finding sites in trees::bp); SSE4.1 builders under `simd` are "
+    "dominated by detection (T1). RangeMin skipping and rank/select arithmetic are not decided.",
+    [
+        only_cfgs(_lazy("tables", "rule_tables", which=["trees::bp::"]), ["cli"]),
+        only_cfgs(_lazy("structrules", "rule_sampleidx", floor=9), ["cli"]),
+        only_cfgs(_lazy("structrules", "rule_tailmask", scope=r"^trees::bp::", floor=3), ["cli"]),
+        T1_ALL,
+    ],
+    quick=["cli", "simd"],
+    technique="const-evaluated table comparison; def-use provenance rules over MIR (sample-index derivation, tail-mask word provenance); target-feature dominance",
 )
 
 
